@@ -34,6 +34,10 @@ def cases(tier, seed, prep=None):
         for who in "AB":
             for k in range(0, 520, 7 if q else 1):
                 out.append({"kind": "sweep", "seed": b + base, "close_at": k, "who": who, "stranger": base % 2 == 1, "dead_addr": base % 4 < 2})
+    # close() at the first moment the Manager is in a given (short-lived) state
+    for i in range(80 if q else 2400):
+        out.append({"kind": "sweep", "seed": b + 300 + i, "close_at": 100000, "who": "AB"[i % 2], "stranger": False, "dead_addr": i % 4 == 3,
+                    "close_in_state": ["ABANDONING", "FLUSHING", "LONELY", "CONNECTING", "ABANDONING"][i % 5]})
     # close() right after a large write: the L2 transport still holds unsent data and has paused Outbound
     for base in (range(2) if q else range(20)):
         for who in "AB":
@@ -112,14 +116,25 @@ def run_case(spec):
     drv.drain_actions = actions
     sch = Scheduler(world, drv, strategy=rng.choice(["random", "pct", "netfirst"]), chunking="whole")
     # 0-2 cuts of the selected link so that the reconnect states occur
-    for _ in range(rng.choice([0, 1, 1, 2])):
+    for _ in range(rng.choice([0, 1, 1, 2]) if not spec.get("close_in_state") else 2):
         def cut():
             link = dp.selected_link()
             if link is not None:
                 # (with unsent bulk data a blackholed link ends only when TCP gives up, which SimNet does not model)
                 how = rng.choice(["both", "blackhole"]) if not spec.get("bulk") else "both"
+                if spec.get("close_in_state"):
+                    how = rng.choice(["both", "leader-first", "leader-first"])
                 if how == "both":
                     r.cut(link)
+                elif how == "leader-first":
+                    # only the Leader notices: its RECONNECT reaches a Follower that still believes in the link
+                    from twisted.internet import error
+                    from twisted.python import failure
+                    r.blackhole(link)
+                    for e in link.ends:
+                        if dp.party_of(unwrap(e.protocol)) == dp.leader() and e.connected:
+                            e.outbuf.clear()
+                            e._connection_lost(failure.Failure(error.ConnectionLost()))
                 else:
                     r.blackhole(link)
         sch.faults.append((rng.randint(120, 480), cut, "fault L2"))
@@ -157,6 +172,16 @@ def run_case(spec):
         dp.apps[who].close()
     sch.faults.append((spec["close_at"], do_close, "close " + who))
     sch.faults.sort(key=lambda f: f[0])
+    if spec.get("close_in_state"):
+        seen_connected = []
+
+        def hook():
+            st = dp.mstate(who)
+            if st == "CONNECTED":
+                seen_connected.append(1)
+            if who not in closing and st == spec["close_in_state"] and (seen_connected or st != "CONNECTING"):
+                do_close()
+        sch.hook = hook
     sch.run(700, until=lambda: dp.apps[who].closed)
     if who not in closing:
         do_close()
